@@ -359,6 +359,14 @@ class Runner(object):
             if not (v.kinds & k):
                 return False
             return None
+        if isinstance(t, ast.Compare) and len(t.ops) == 1 and isinstance(t.left, ast.Call) and isinstance(t.left.func, ast.Name) and t.left.func.id == "len" and len(t.left.args) == 1 \
+                and isinstance(t.comparators[0], ast.Constant) and t.comparators[0].value == 0 and isinstance(t.ops[0], (ast.Eq, ast.NotEq, ast.Gt)):
+            # the raw kinds tell empty from non-empty containers apart
+            v = self.ev(t.left.args[0], env, fi, cls)
+            if v.kinds and v.kinds <= EMPTY:
+                return isinstance(t.ops[0], ast.Eq)
+            if v.kinds and v.kinds <= (LISTS | TUPLES | DICTS) - EMPTY:
+                return not isinstance(t.ops[0], ast.Eq)
         if isinstance(t, ast.Compare) and len(t.ops) == 1:
             l = self.ev(t.left, env, fi, cls)
             r = self.ev(t.comparators[0], env, fi, cls)
